@@ -8,6 +8,7 @@
 use bytes::Bytes;
 use domain::base::iana::{Class, Opcode, OptRcode, OptionCode, Rcode, Rtype};
 use domain::base::rdata::UnknownRecordData;
+use domain::base::message_builder::StreamTarget;
 use domain::base::{Message, MessageBuilder, Name, ParsedName, ToName, Ttl};
 use domain::net::client::cache;
 use domain::net::client::request::{ComposeRequest, Error, GetResponse, RequestMessage, SendRequest};
@@ -31,7 +32,10 @@ struct Rec { rtype: u16, class: u16, ttl: u32, id: u32, bad: bool }
 /// a record is `bad` when its header parses but its RDATA does not parse as its type.
 #[derive(Clone, Debug)]
 struct RMsg { id: u16, rcode: u16, aa: bool, tc: bool, rd: bool, ad: bool, q: Option<(u16, u16)>, qcase: u32, secs: [Vec<Rec>; 3], broken: bool }
-impl RMsg { fn has_bad(&self) -> bool { self.secs.iter().any(|s| s.iter().any(|r| r.bad)) } }
+impl RMsg {
+    /// the extended rcode, computed here from the parts: header rcode and the top octet of the TTL field of the first OPT record
+    fn full_rcode(&self) -> u16 { match self.secs[2].iter().find(|r| r.rtype == 41) { Some(o) if !o.bad => ((o.ttl >> 24) as u16) << 4 | self.rcode, _ => self.rcode } }
+    fn has_bad(&self) -> bool { self.secs.iter().any(|s| s.iter().any(|r| r.bad)) } }
 
 #[derive(Clone, Debug)]
 enum RResp { Err(u8), Msg(RMsg) }
@@ -69,7 +73,7 @@ fn spelling(name: &str) -> u32 {
 
 fn render_msg(m: &Message<Bytes>) -> RMsg {
     let h = m.header();
-    let mut out = RMsg { id: h.id(), rcode: m.opt_rcode().to_int(), aa: h.aa(), tc: h.tc(), rd: h.rd(), ad: h.ad(), q: None, qcase: 0, secs: [vec![], vec![], vec![]], broken: false };
+    let mut out = RMsg { id: h.id(), rcode: h.rcode().to_int() as u16, aa: h.aa(), tc: h.tc(), rd: h.rd(), ad: h.ad(), q: None, qcase: 0, secs: [vec![], vec![], vec![]], broken: false };
     out.q = match m.question().next() {
         Some(Ok(q)) => { out.qcase = spelling(&format!("{}", q.qname())); Some((q.qtype().to_int(), q.qclass().to_int())) }
         Some(Err(_)) => { out.broken = true; return out; } None => None };
@@ -139,14 +143,21 @@ struct RecSpec { sec: usize, rtype: u16, class: u16, ttl: u32, owner_apex: bool,
 enum RespSpec { Err(u8), Msg { rcode: u8, aa: bool, tc: bool, ad: bool, noq: bool, recs: Vec<RecSpec>, broken: bool, ext: Option<u16>, opt_data: bool } }
 
 #[derive(Clone, Debug)]
-struct QSpec { name: usize, class: u16, rtype: u16, rd: bool, cd: bool, ad: bool, do_: bool, opcode: u8 }
+/// How the request gets (or does not get) EDNS: `base_opt` = the base message handed to
+/// RequestMessage::new already carries an OPT record (1: DO clear, 2: DO set); `own` = which setter is
+/// called on the RequestMessage (0: set_dnssec_ok(true) iff do_, 1: set_dnssec_ok(do_) always,
+/// 2: set_udp_payload_size only, do_ is false).  What counts is the RequestMessage's own OPT: an OPT
+/// record of the base message is dropped by both serialisations.
+struct QSpec { name: usize, class: u16, rtype: u16, rd: bool, cd: bool, ad: bool, do_: bool, opcode: u8, base_opt: u8, own: u8 }
+impl QSpec { fn own_present(&self) -> bool { self.do_ || self.own > 0 } }
 
 #[derive(Clone, Debug)]
 /// `hold_ms`: the clock advance between send_request() and get_response().await of this request
 struct Ev { gap_ms: u64, q: QSpec, resp: RespSpec, delay_ms: u64, hold_ms: u64 }
 
 #[derive(Clone, Debug)]
-struct Cfg { raw: [u64; 6], trunc: bool, entries: Option<u64>, honest: bool, dflt: bool }
+/// `wire_append`: the mock upstream reads the request as a stream transport would (append_message), else as dgram does (to_message)
+struct Cfg { raw: [u64; 6], trunc: bool, entries: Option<u64>, honest: bool, dflt: bool, wire_append: bool }
 
 fn wire_name(labels: &[&str]) -> Vec<u8> {
     let mut v = vec![];
@@ -197,7 +208,7 @@ impl QObs {
 struct LogEntry { q: QObs, req_id: u16, t_ms: u64, resp: RResp, raw: Option<Bytes>, delay_ms: u64 }
 
 /// `next`: what to answer (and after how long) to the request with the given header ID
-struct MockState { next: HashMap<u16, (RespSpec, u64)>, log: Vec<LogEntry>, honest: bool, t0: tokio::time::Instant,
+struct MockState { wire_append: bool, next: HashMap<u16, (RespSpec, u64)>, log: Vec<LogEntry>, honest: bool, t0: tokio::time::Instant,
     /// (true, id, ms) = request `id` started its lookup, (false, id, _) = upstream's answer to it arrived
     order: Vec<(bool, u16, u64)> }
 
@@ -211,6 +222,25 @@ impl SendRequest<RequestMessage<Vec<u8>>> for Mock {
     fn send_request(&self, req: RequestMessage<Vec<u8>>) -> Box<dyn GetResponse + Send + Sync> {
         Box::new(MockReq { mock: self.clone(), req })
     }
+}
+
+/// the request as a transport would put it on the wire: stream-style (append_message into a
+/// StreamTarget) or dgram-style (to_message)
+fn wire_message(req: &RequestMessage<Vec<u8>>, append: bool) -> Message<Vec<u8>> {
+    if append {
+        let mut target = StreamTarget::new_vec();
+        req.append_message(&mut target).unwrap();
+        Message::from_octets(target.as_dgram_slice().to_vec()).unwrap()
+    } else { req.to_message().unwrap() }
+}
+
+/// both serialisations of one request must describe the same request (the cache keys on to_message,
+/// stream transports send append_message)
+fn serialisations_agree(req: &RequestMessage<Vec<u8>>) -> Result<(), String> {
+    let (a, b) = (wire_message(req, true), wire_message(req, false));
+    let d = |m: &Message<Vec<u8>>| { let q = observe_query(m); format!("{:?} opt={:?} q={:?}", q, m.opt().map(|o| (o.dnssec_ok(), o.udp_payload_size(), o.version())),
+        m.question().next().and_then(|q| q.ok()).map(|q| format!("{}", q.qname()))) };
+    if d(&a) == d(&b) { Ok(()) } else { Err(format!("append_message: {} / to_message: {}", d(&a), d(&b))) }
 }
 
 fn observe_query(m: &Message<Vec<u8>>) -> QObs {
@@ -275,7 +305,8 @@ fn build_response(req: &Message<Vec<u8>>, q: &QObs, spec: &RespSpec, honest: boo
 impl GetResponse for MockReq {
     fn get_response(&mut self) -> Pin<Box<dyn Future<Output = Result<Message<Bytes>, Error>> + Send + Sync + '_>> {
         Box::pin(async move {
-            let msg = self.req.to_message().unwrap();
+            let append = self.mock.0.lock().unwrap().wire_append;
+            let msg = wire_message(&self.req, append);
             let q = observe_query(&msg);
             let (spec, delay, honest) = {
                 let mut st = self.mock.0.lock().unwrap();
@@ -298,7 +329,7 @@ impl GetResponse for MockReq {
 struct Served { q: QObs, now_ms: u64, resp: RResp, log_len: usize }
 
 #[derive(Default)]
-struct Trace { words: Vec<String>, obs: Vec<String>, served: Vec<Served>, cur: Option<(String, usize)>, altered: Vec<String>, nonneg: usize, nserved: usize }
+struct Trace { disagree: Vec<String>, words: Vec<String>, obs: Vec<String>, served: Vec<Served>, cur: Option<(String, usize)>, altered: Vec<String>, nonneg: usize, nserved: usize }
 
 fn build_query(q: &QSpec, id: u16) -> RequestMessage<Vec<u8>> {
     let mut mb = MessageBuilder::new_vec();
@@ -308,12 +339,22 @@ fn build_query(q: &QSpec, id: u16) -> RequestMessage<Vec<u8>> {
     }
     let mut qb = mb.question();
     qb.push((Name::<Vec<u8>>::from_str(NAMES[q.name].0).unwrap(), Rtype::from_int(q.rtype), Class::from_int(q.class))).unwrap();
-    let mut req = RequestMessage::new(qb.into_message()).unwrap();
-    if q.do_ { req.set_dnssec_ok(true); }
+    let base = if q.base_opt > 0 {
+        let mut add = qb.additional();
+        let d = q.base_opt == 2;
+        add.opt(|o| { o.set_udp_payload_size(4096); o.set_dnssec_ok(d); Ok(()) }).unwrap();
+        add.into_message()
+    } else { qb.into_message() };
+    let mut req = RequestMessage::new(base).unwrap();
+    match q.own {
+        0 => if q.do_ { req.set_dnssec_ok(true); },
+        1 => req.set_dnssec_ok(q.do_),
+        _ => req.set_udp_payload_size(1400),
+    }
     req
 }
 
-fn qflags(q: &QSpec) -> u32 { q.rd as u32 | (q.cd as u32) << 1 | (q.ad as u32) << 2 | (q.do_ as u32) << 3 }
+fn qflags(q: &QSpec) -> u32 { q.rd as u32 | (q.cd as u32) << 1 | (q.ad as u32) << 2 | (q.do_ as u32) << 3 | (q.base_opt as u32) << 4 | (q.own_present() as u32) << 6 }
 
 fn make_conn(cfg: &Cfg, mock: &Mock) -> cache::Connection<Mock> {
     let mut c = cache::Config::new();
@@ -347,7 +388,8 @@ async fn run_concurrent(cfg: Cfg, evs: Vec<Ev>, batches: Vec<usize>, trace: Arc<
         for (j, ev) in &batch {
             mock.0.lock().unwrap().next.insert(1000 + *j as u16, (ev.resp.clone(), ev.delay_ms));
             let reqmsg = build_query(&ev.q, 1000 + *j as u16);
-            let qobs = observe_query(&reqmsg.to_message().unwrap());
+            if let Err(e) = serialisations_agree(&reqmsg) { trace.lock().unwrap().disagree.push(e); }
+            let qobs = observe_query(&wire_message(&reqmsg, true));
             reqs.push((*j, qobs, conn.send_request(reqmsg)));
         }
         let mref = &mock;
@@ -398,7 +440,8 @@ async fn run_history(cfg: Cfg, evs: Vec<Ev>, trace: Arc<Mutex<Trace>>, mock: Moc
     for (i, ev) in evs.iter().enumerate() {
         if ev.gap_ms > 0 { tokio::time::advance(Duration::from_millis(ev.gap_ms)).await; }
         let reqmsg = build_query(&ev.q, 1000 + i as u16);
-        let qobs = observe_query(&reqmsg.to_message().unwrap());
+        if let Err(e) = serialisations_agree(&reqmsg) { trace.lock().unwrap().disagree.push(e); }
+            let qobs = observe_query(&wire_message(&reqmsg, true));
         // the request object may be created well before it is awaited: what counts (age of
         // entries, expiry) is the time at which get_response() runs
         let mut req = conn.send_request(reqmsg);
@@ -452,7 +495,7 @@ fn effective(cfg: &Cfg) -> [u64; 6] {
 fn class_cap(eff: &[u64; 6], trunc: bool, u: &RMsg) -> u64 {
     if u.tc && !trunc { return 0; }
     let maxv = eff[0];
-    match u.rcode {
+    match u.full_rcode() {
         0 => {
             let (qt, qc) = match u.q { Some(x) => x, None => return 0 };
             if u.secs[0].iter().any(|r| r.rtype == qt && r.class == qc) { maxv }
@@ -568,6 +611,8 @@ fn oracle(out: &mut Out, label: &str, cfg: &Cfg, tr: &Trace, log: &[LogEntry]) {
             Some((c, d)) => out.check(false, c, label, &d),
         }
     }
+    for d in &tr.disagree { out.check(false, "request_serialisations_disagree", label, d); }
+    out.check(tr.disagree.is_empty(), "request_serialisations_disagree", label, "");
     for a in &tr.altered { out.check(false, "forward_altered", label, a); }
     out.check(tr.altered.is_empty(), "forward_altered", label, "");
 }
@@ -625,7 +670,7 @@ fn gen_cfg(r: &mut Rng, kind: u64) -> Cfg {
         raw[5] = pick(r, &[0, 60, 61, 90, 1_000_000, 1_000_000_000, 1_000_000_001]);
         trunc = r.chance(1, 2);
     }
-    Cfg { raw, trunc, entries: None, honest: !r.chance(1, 6), dflt: kind == 0 }
+    Cfg { raw, trunc, entries: None, honest: !r.chance(1, 6), dflt: kind == 0, wire_append: r.chance(1, 2) }
 }
 
 fn gen_resp(r: &mut Rng, q: &QSpec, ttls: &[u32], ser: &mut u32) -> RespSpec {
@@ -680,7 +725,8 @@ fn gen_resp(r: &mut Rng, q: &QSpec, ttls: &[u32], ser: &mut u32) -> RespSpec {
     }
     // malformed upstream data: one record whose RDATA is one octet short, or counts that promise too much
     if r.chance(1, 12) && !recs.is_empty() { let i = r.below(recs.len() as u64) as usize; recs[i].bad = true; }
-    let ext = if r.chance(1, 25) { Some(*r.pick(&[16u16, 23, 3841, 4095])) } else { None };
+    // extended rcodes; those whose low nibble is 0 (NOERROR) or 3 (NXDOMAIN) only differ from these in the OPT record
+    let ext = if r.chance(1, 12) { Some(*r.pick(&[16u16, 19, 23, 0x120, 0x123, 0x7f0, 0xff3, 3841, 4095])) } else { None };
     RespSpec::Msg { rcode, aa: r.chance(1, 2), tc: r.chance(1, 10), ad: r.chance(1, 2), noq: r.chance(1, 60), recs,
         broken: r.chance(1, 30), ext, opt_data: r.chance(1, 6) }
 }
@@ -719,7 +765,10 @@ fn gen_history(r: &mut Rng, cfg: &Cfg, len: usize) -> Vec<Ev> {
         if r.chance(1, 3) { since = 0; } else { since += gap; }
         let opcode = if r.chance(1, 40) { *r.pick(&[2u8, 4]) } else { 0 };
         let q = QSpec { name: *r.pick(&names), class: if r.chance(1, 40) { 3 } else { 1 }, rtype: *r.pick(&types),
-            rd: r.chance(1, 2), cd: r.chance(1, 8), ad: r.chance(1, 3), do_: r.chance(1, 3), opcode };
+            rd: r.chance(1, 2), cd: r.chance(1, 8), ad: r.chance(1, 3), do_: r.chance(1, 3), opcode, base_opt: 0, own: 0 };
+        let mut q = q;
+        // EDNS by other routes: an OPT record in the hand-made base message (dropped), other setters
+        match r.below(10) { 0 | 1 => { q.base_opt = 1 + q.do_ as u8; q.do_ = false; } 2 => { q.base_opt = r.range(1, 2) as u8; q.own = 1; } 3 => { q.own = 2; q.do_ = false; } 4 => { q.own = 1; } _ => {} }
         let resp = gen_resp(r, &q, &ttls, &mut ser);
         let delay = if r.chance(1, 6) { *r.pick(&[1u64, 400, 1000, 1500]) } else { 0 };
         // 1 in 5 requests is created first and awaited after the clock has moved on to (around) an expiry mark
@@ -734,13 +783,13 @@ fn gen_history(r: &mut Rng, cfg: &Cfg, len: usize) -> Vec<Ev> {
 fn a_rec(sec: usize, rtype: u16, ttl: u32, apex: bool, ser: u32) -> RecSpec { RecSpec { sec, rtype, class: 1, ttl, owner_apex: apex, ser, bad: false } }
 fn bad_rec(sec: usize, rtype: u16, ttl: u32, apex: bool, ser: u32) -> RecSpec { RecSpec { sec, rtype, class: 1, ttl, owner_apex: apex, ser, bad: true } }
 fn qs(name: usize, rtype: u16, flags: u32) -> QSpec {
-    QSpec { name, class: 1, rtype, rd: flags & 1 != 0, cd: flags & 2 != 0, ad: flags & 4 != 0, do_: flags & 8 != 0, opcode: 0 }
+    QSpec { name, class: 1, rtype, rd: flags & 1 != 0, cd: flags & 2 != 0, ad: flags & 4 != 0, do_: flags & 8 != 0, opcode: 0, base_opt: 0, own: 0 }
 }
 fn msg(rcode: u8, ad: bool, tc: bool, recs: Vec<RecSpec>) -> RespSpec { RespSpec::Msg { rcode, aa: true, tc, ad, noq: false, recs, broken: false, ext: None, opt_data: false } }
 
 /// fixed boundary / regression histories
 fn corpus() -> Vec<(Cfg, Vec<Ev>)> {
-    let dflt = Cfg { raw: [604800, 30, 30, 3600, 3600, 1_000_000], trunc: false, entries: None, honest: true, dflt: true };
+    let dflt = Cfg { raw: [604800, 30, 30, 3600, 3600, 1_000_000], trunc: false, entries: None, honest: true, dflt: true, wire_append: true };
     let ev = |gap: u64, q: QSpec, resp: RespSpec| Ev { gap_ms: gap, q, resp, delay_ms: 0, hold_ms: 0 };
     let held = |gap: u64, hold: u64, q: QSpec, resp: RespSpec| Ev { gap_ms: gap, q, resp, delay_ms: 0, hold_ms: hold };
     let none = RespSpec::Err(4);
@@ -807,6 +856,27 @@ fn corpus() -> Vec<(Cfg, Vec<Ev>)> {
     v.push((dflt.clone(), vec![
         ev(0, qs(0, 1, 1), RespSpec::Msg { rcode: 0, aa: false, tc: false, ad: false, noq: false, recs: vec![a_rec(0, 1, 600, false, 1)], broken: false, ext: Some(16), opt_data: true }),
         ev(30_000, qs(0, 1, 0), none.clone()), ev(1, qs(0, 1, 1), none.clone())]));
+    // a hand-made base message that already carries an OPT record with DO set, no EDNS setter called: both
+    // serialisations drop it, so the cache keys it as DO clear and upstream is asked without DO; an ordinary DO
+    // request afterwards must not be served that answer
+    let handmade = |name: usize, rtype: u16, flags: u32, base: u8, own: u8| { let mut q = qs(name, rtype, flags); q.base_opt = base; q.own = own; q };
+    v.push((dflt.clone(), vec![
+        ev(0, handmade(0, 1, 1, 2, 0), msg(0, true, false, vec![a_rec(0, 1, 300, false, 1), a_rec(0, 46, 300, false, 2)])),
+        ev(1000, qs(0, 1, 1 | 8), msg(0, true, false, vec![a_rec(0, 1, 300, false, 3), a_rec(0, 46, 300, false, 4)])),
+        ev(1000, qs(0, 1, 1), none.clone()), ev(0, qs(0, 1, 1 | 8), none.clone()),
+        ev(0, handmade(0, 1, 1, 1, 1), none.clone()), ev(0, handmade(0, 1, 1 | 8, 1, 1), none.clone()), ev(0, handmade(0, 1, 1, 2, 2), none.clone())]));
+    // CD partitions the cache also for DO requests; a stripped answer stays within its CD half
+    v.push((dflt.clone(), vec![
+        ev(0, qs(0, 1, 1 | 8), msg(0, true, false, vec![a_rec(0, 1, 300, false, 1), a_rec(0, 46, 300, false, 2)])),
+        ev(1000, qs(0, 1, 1 | 8 | 2), msg(0, false, false, vec![a_rec(0, 1, 200, false, 3), a_rec(0, 46, 200, false, 4)])),
+        ev(1000, qs(0, 1, 1 | 8), none.clone()), ev(0, qs(0, 1, 1 | 8 | 2), none.clone()),
+        ev(0, qs(0, 1, 2), none.clone()), ev(0, qs(0, 1, 0), none.clone())]));
+    // extended rcodes whose low nibble reads NOERROR (0x120) / NXDOMAIN (0x123): misc errors, 30 s, not 3600 s
+    v.push((dflt.clone(), vec![
+        ev(0, qs(0, 1, 1), RespSpec::Msg { rcode: 3, aa: false, tc: false, ad: false, noq: false, recs: vec![a_rec(1, 6, 3600, true, 1)], broken: false, ext: Some(0x123), opt_data: false }),
+        ev(30_000, qs(0, 1, 1), none.clone()),
+        ev(1, qs(0, 1, 1), RespSpec::Msg { rcode: 0, aa: false, tc: false, ad: false, noq: false, recs: vec![a_rec(0, 1, 3600, false, 2)], broken: false, ext: Some(0x120), opt_data: false }),
+        ev(30_000, qs(0, 1, 0), none.clone()), ev(1, qs(0, 1, 1), none.clone())]));
     // requests created early and awaited late: TTL 100 fetched at t=0; created at t=10 s and awaited at t=70 s -> TTL 30;
     // created at t=90 s (entry still fresh) and awaited at t=200 s -> stale, goes upstream; created at 200 s, awaited exactly at expiry
     v.push((dflt.clone(), vec![
@@ -830,7 +900,7 @@ fn execute(cfg: &Cfg, evs: &[Ev]) -> (Trace, Vec<LogEntry>, bool) { execute_with
 fn execute_with(cfg: &Cfg, evs: &[Ev], batches: Option<Vec<usize>>) -> (Trace, Vec<LogEntry>, bool) {
     let trace = Arc::new(Mutex::new(Trace::default()));
     let rt = tokio::runtime::Builder::new_current_thread().enable_time().start_paused(true).build().unwrap();
-    let mock = Mock(Arc::new(Mutex::new(MockState { next: HashMap::new(), order: vec![], log: vec![], honest: cfg.honest, t0: rt.block_on(async { tokio::time::Instant::now() }) })));
+    let mock = Mock(Arc::new(Mutex::new(MockState { wire_append: cfg.wire_append, next: HashMap::new(), order: vec![], log: vec![], honest: cfg.honest, t0: rt.block_on(async { tokio::time::Instant::now() }) })));
     let (c2, e2, t2, m2) = (cfg.clone(), evs.to_vec(), trace.clone(), mock.clone());
     let res = catch_mut(move || match batches { None => rt.block_on(run_history(c2, e2, t2, m2)), Some(b) => rt.block_on(run_concurrent(c2, e2, b, t2, m2)) });
     let log = match mock.0.lock() { Ok(g) => g.log.clone(), Err(p) => p.into_inner().log.clone() };
@@ -915,7 +985,7 @@ fn main() {
         // third one later.  Exact expectation: no single-flight (both reach upstream), both answers are
         // inserted, the later insert wins, so the third request is served the second answer, aged from
         // the moment that answer arrived.
-        let dflt = Cfg { raw: [604800, 30, 30, 3600, 3600, 1_000_000], trunc: false, entries: None, honest: true, dflt: true };
+        let dflt = Cfg { raw: [604800, 30, 30, 3600, 3600, 1_000_000], trunc: false, entries: None, honest: true, dflt: true, wire_append: true };
         let evs = vec![
             Ev { gap_ms: 0, q: qs(0, 1, 1), resp: msg(0, false, false, vec![a_rec(0, 1, 60, false, 1)]), delay_ms: 400, hold_ms: 0 },
             Ev { gap_ms: 0, q: qs(0, 1, 1), resp: msg(0, false, false, vec![a_rec(0, 1, 90, false, 2)]), delay_ms: 1000, hold_ms: 0 },
